@@ -342,7 +342,7 @@ MV_THEOREMS = {'conf_consts_eq', 'conf_up_eq', 'conf_homo_eq', 'conf_down_eq', '
 LOOP_THEOREMS = {'cre_eq', 'crs_eq', 'gmt_element_eq', 'construct_gmt_eq', 'construct_graded_mt_eq', 'tuple_as_sign_and_bitmap_eq'}
 
 
-CLOSED_THEOREMS = {'hitzer_tail_ok', 'hitzer_num1_eq', 'hitzer_num2_eq', 'hitzer_num3_eq', 'hitzer_num4_eq', 'hitzer_num5_eq'}
+CLOSED_THEOREMS = {'hitzer_tail_ok', 'hitzer_num1_eq', 'hitzer_num2_eq', 'hitzer_num3_eq', 'hitzer_num4_eq', 'hitzer_num5_eq', 'shirokov_loop_eq'}
 
 
 METH_THEOREMS = {'meth_conjugate_eq', 'meth_even_eq', 'meth_odd_eq', 'meth_mag2_eq', 'meth_commutator_eq', 'meth_anticommutator_eq',
@@ -417,7 +417,7 @@ TRANSLATORS = [   # (script, theorems it generates (None = everything else), mod
     ('py2lean.py', None, ['Model', 'Proofs.Rev', 'Proofs.Invol']),
     ('mv2lean.py', MV_THEOREMS, ['Proofs.Conf2', 'Proofs.CgaObj', 'Proofs.Classify']),
     ('loops2lean.py', LOOP_THEOREMS, ['Model']),
-    ('closed2lean.py', CLOSED_THEOREMS, ['Proofs.Hitzer', 'Proofs.Hitzer4', 'Proofs.Hitzer5']),
+    ('closed2lean.py', CLOSED_THEOREMS, ['Proofs.Hitzer', 'Proofs.Hitzer4', 'Proofs.Hitzer5', 'Proofs.Shirokov']),
     ('methods2lean.py', METH_THEOREMS, ['Proofs.Invol', 'Proofs.Graded', 'Proofs.Blade', 'Proofs.InvProps', 'Model.Dispatch']),
     ('kernels2lean.py', KERN_THEOREMS, ['Model']),
     ('layout2lean.py', LAY_THEOREMS, ['Model']),
